@@ -1,287 +1,81 @@
 /-
   C05 — every reply is the prescribed one, well-formed and correctly addressed.
 
-  Part 1 (reply table): for each message kind the output of `logic` is characterised exactly —
-  which message is handed to `route` (sent at once, or withheld if its destination sleeps: C07/C08).
-  Part 2 (validity): each prescribed reply message is valid for the configured version
-  (`validate g.const r = true`, discharged against the generated tables) and its line is the
-  canonical one that decodes to it again (C02).
-  Part 3: the destination is the requesting node, or 255 for the broadcast discover request.
+  * `Properties/C05Table.lean` (namespace `MySensors.C05`): the reply table — for each message
+    kind the exact message handed to `route` — and the validity of each prescribed reply.
+  * this file: the global statement.  In every state reachable by any history of inbound lines
+    and controller calls whose values the wire format can carry, every line any step hands to
+    the transport is the encoding of a message that is valid for the configured version, and
+    that line is the canonical one and decodes to that message again.
 -/
-import MySensors.Lemmas.GwTotal
-import MySensors.Properties.C06
+import MySensors.Lemmas.GwEmit
 
 namespace MySensors.C05
 
 open MySensors
 
-/-! ### dispatch lemmas: an accepted message of a given kind runs that kind's handler -/
+theorem emitInv_fresh (c : ConstId) (kd : Kind) (pers : Bool) :
+    EmitInv c { const := c, kind := kd, persist := pers } :=
+  ⟨rfl, fun k n hn => by simp [aget] at hn, fun k n hn => by simp [aget] at hn,
+   fun k n cid ch vt v hn => by simp [aget] at hn, fun k n cid dv vt v hn => by simp [aget] at hn,
+   numDigits_zero, fun d hd => by simp at hd⟩
 
-def typeDispatchOk (t : VTables) : Bool :=
-  lookup t.mtPresentation t.typeHandlers == some .handle_presentation &&
-  lookup t.mtSet t.typeHandlers == some .handle_set &&
-  lookup t.mtReq t.typeHandlers == some .handle_req &&
-  lookup t.mtInternal t.typeHandlers == some .handle_internal &&
-  lookup t.mtStream t.typeHandlers == some .handle_stream
+/-- **C05 (global), one step**: under the invariant, every emitted line is the canonical,
+    re-decodable encoding of a message valid for the configured version -/
+theorem emitted_valid_step (g : GW) (op : Op) (hk : KeyRange g) (hop : Op.carry op) (hi : EmitInv g.const g) :
+    ∀ l ∈ (step g op).2.sent, ∃ x : Msg, l = encLine x ∧ validate g.const x = true ∧
+      l = canon x ∧ decode l = some x := by
+  intro l hl
+  obtain ⟨x, hx, hw⟩ := (eo_step g op rfl hk hop).sent hi l hl
+  obtain ⟨h1, h2⟩ := emitted_line_canonical x hw.2.1 hw.2.2
+  exact ⟨x, hx, hw.1, by rw [hx]; exact h1, by rw [hx]; exact h2⟩
 
-theorem type_dispatch (c : ConstId) : typeDispatchOk (Tables.tables c) = true := by cases c <;> decide
+/-- the invariant is preserved by every op -/
+theorem emitInv_step (g : GW) (op : Op) (hk : KeyRange g) (hop : Op.carry op) (hi : EmitInv g.const g) :
+    EmitInv (step g op).1.const (step g op).1 := by
+  have h := eo_step g op rfl hk hop
+  rw [h.const]
+  exact h.inv hi
 
-theorem logic_accepted (g : GW) (l : Str) (m : Msg) (hd : decode l = some m) (hv : validate g.const m = true) :
-    logic g l = dispatch g m := by
-  unfold logic; simp [hd, hv]
+theorem inv_run (g : GW) (ops : List Op) (hops : ∀ o ∈ ops, Op.carry o) (hk : KeyInv g) (hi : EmitInv g.const g) :
+    KeyInv (run g ops) ∧ EmitInv (run g ops).const (run g ops) := by
+  induction ops generalizing g with
+  | nil => exact ⟨hk, hi⟩
+  | cons op ops ih =>
+    exact ih _ (fun o ho => hops o (by simp [ho])) (keyInv_step g op hk)
+      (emitInv_step g op hk.1 (hops op (by simp)) hi)
 
-theorem logic_req (g : GW) (l : Str) (m : Msg) (hd : decode l = some m) (hv : validate g.const m = true)
-    (ht : m.type = g.t.mtReq) : logic g l = handleReq g m := by
-  rw [logic_accepted g l m hd hv]
-  have := type_dispatch g.const
-  simp only [typeDispatchOk, Bool.and_eq_true, beq_iff_eq] at this
-  unfold dispatch
-  rw [ht]
-  have h : lookup g.t.mtReq g.t.typeHandlers = some .handle_req := this.1.1.2
-  simp only [h, dispatchBy]
+/-- **C05 (global), over histories**: from a freshly constructed gateway of any version and kind,
+    after any history of inbound lines (arbitrary text) and controller calls with node ids in
+    range and carryable values, every command the next step emits is a single canonical line that
+    decodes to a message valid for the configured version. -/
+theorem emitted_valid_run (c : ConstId) (kd : Kind) (pers : Bool) (ops : List Op) (op : Op)
+    (hops : ∀ o ∈ ops, Op.carry o) (hop : Op.carry op) :
+    let g := run { const := c, kind := kd, persist := pers } ops
+    ∀ l ∈ (step g op).2.sent, ∃ x : Msg, l = encLine x ∧ validate g.const x = true ∧
+      l = canon x ∧ decode l = some x := by
+  intro g
+  have h0k : KeyInv { const := c, kind := kd, persist := pers } :=
+    ⟨fun k hk => by simp [akeys] at hk, fun d hd => by simp at hd⟩
+  obtain ⟨hk, hi⟩ := inv_run _ ops hops h0k (emitInv_fresh c kd pers)
+  exact emitted_valid_step g op hk.1 hop hi
 
-theorem logic_set (g : GW) (l : Str) (m : Msg) (hd : decode l = some m) (hv : validate g.const m = true)
-    (ht : m.type = g.t.mtSet) : logic g l = handleSet g m := by
-  rw [logic_accepted g l m hd hv]
-  have := type_dispatch g.const
-  simp only [typeDispatchOk, Bool.and_eq_true, beq_iff_eq] at this
-  unfold dispatch
-  rw [ht]
-  have h : lookup g.t.mtSet g.t.typeHandlers = some .handle_set := this.1.1.1.2
-  simp only [h, dispatchBy]
+/-! Non-vacuity: a history with a sleeping node, a pending desired value and a withheld reply;
+    the wake-up burst consists of valid canonical lines. -/
 
-theorem logic_internal (g : GW) (l : Str) (m : Msg) (h : HandlerId) (hd : decode l = some m)
-    (hv : validate g.const m = true) (ht : m.type = g.t.mtInternal)
-    (hh : lookup m.sub g.t.internalHandlers = some h) (hnt : ¬ (g.kind = .tcp ∧ some m.sub = g.t.iVersion)) :
-    logic g l = handleInternalBy h g m := by
-  rw [logic_accepted g l m hd hv]
-  have := type_dispatch g.const
-  simp only [typeDispatchOk, Bool.and_eq_true, beq_iff_eq] at this
-  unfold dispatch
-  rw [ht]
-  have h' : lookup g.t.mtInternal g.t.typeHandlers = some .handle_internal := this.1.2
-  simp only [h', dispatchBy, handleInternal, hnt, ↓reduceIte, hh]
+def demo : List Op :=
+  [.line "1;255;0;0;17;2.0\n".toList, .line "1;1;0;0;6;t\n".toList, .line "1;1;1;0;0;20\n".toList,
+   .line "1;255;3;0;22;7\n".toList, .setValue 1 1 (.int 0) "25".toList none, .line "1;1;2;0;0;\n".toList]
 
-theorem replyCopy_decoded (g : GW) (l : Str) (m : Msg) (kw : Kw) (hd : decode l = some m) :
-    replyCopy g m kw = route g (m.modify kw) := by
-  unfold replyCopy
-  rw [C02.copy_decoded l m kw hd]
+example : ∀ o ∈ demo, Op.carry o := by
+  intro o ho
+  simp only [demo, List.mem_cons, List.mem_nil_iff, or_false] at ho
+  rcases ho with rfl | rfl | rfl | rfl | rfl | rfl
+  all_goals first
+    | trivial
+    | exact ⟨by omega, by omega, by decide, by intro ch hch; simp at hch; subst hch; decide⟩
 
-theorem seq_congr (r : Res) (f f' : GW → Res) (h : f r.1 = f' r.1) : seq r f = seq r f' := by
-  unfold seq; rw [h]
-
-/-! ### the reply table -/
-
-/-- **value request**: answered with a `set` carrying the pending desired value if one exists,
-    else the latest reported value; nothing if there is neither. -/
-theorem value_request_reply (g : GW) (l : Str) (m : Msg) (n : Node) (hd : decode l = some m)
-    (hv : validate g.const m = true) (ht : m.type = g.t.mtReq)
-    (hk : isKnown g m.node (some m.child) = true) (hn : aget m.node g.sensors = some n) :
-    logic g l =
-      match desiredValue n m.child m.sub with
-      | none => ret g
-      | some v => route g ⟨m.node, m.child, g.t.mtSet, m.ack, m.sub, v⟩ := by
-  rw [logic_req g l m hd hv ht]
-  unfold handleReq ifKnown
-  simp only [hk, ↓reduceIte]
-  rw [withNode_eq g m.node _ n hn]
-  cases desiredValue n m.child m.sub with
-  | none => rfl
-  | some v => simp only; rw [replyCopy_decoded g l m _ hd]; rfl
-
-/-- **a message that needs a node or child the gateway does not know**: exactly one presentation
-    request to that node for ≥ 2.0, silence before (stated for value requests and sets; the other
-    handlers use the same `ifKnown` guard) -/
-theorem unknown_gets_presentation_request (g : GW) (l : Str) (m : Msg) (hd : decode l = some m)
-    (hv : validate g.const m = true) (ht : m.type = g.t.mtReq ∨ m.type = g.t.mtSet)
-    (hk : isKnown g m.node (some m.child) = false) :
-    logic g l = requestPresentation g m.node := by
-  rcases ht with ht | ht
-  · rw [logic_req g l m hd hv ht]; unfold handleReq ifKnown; simp [hk]
-  · rw [logic_set g l m hd hv ht]; unfold handleSet ifKnown; simp [hk]
-
-theorem requestPresentation_spec (g : GW) (node : Int) :
-    requestPresentation g node =
-      if g.const.ge20 then
-        match g.t.iPresentation with
-        | none => ret g
-        | some sub => route g ⟨node, 255, g.t.mtInternal, 0, sub, []⟩
-      else ret g := rfl
-
-/-- **config request**: M or I -/
-theorem config_reply (g : GW) (l : Str) (m : Msg) (hd : decode l = some m) (hv : validate g.const m = true)
-    (ht : m.type = g.t.mtInternal) (hh : lookup m.sub g.t.internalHandlers = some .handle_config)
-    (hnt : ¬ (g.kind = .tcp ∧ some m.sub = g.t.iVersion)) :
-    logic g l = route g ⟨m.node, m.child, m.type, 0, m.sub, if g.metric then ['M'] else ['I']⟩ := by
-  rw [logic_internal g l m _ hd hv ht hh hnt]
-  simp only [handleInternalBy]
-  rw [replyCopy_decoded g l m _ hd]; rfl
-
-/-- **time request**: the controller's clock in seconds -/
-theorem time_reply (g : GW) (l : Str) (m : Msg) (hd : decode l = some m) (hv : validate g.const m = true)
-    (ht : m.type = g.t.mtInternal) (hh : lookup m.sub g.t.internalHandlers = some .handle_time)
-    (hnt : ¬ (g.kind = .tcp ∧ some m.sub = g.t.iVersion)) :
-    logic g l = route g ⟨m.node, m.child, m.type, 0, m.sub, renderInt g.clock⟩ := by
-  rw [logic_internal g l m _ hd hv ht hh hnt]
-  simp only [handleInternalBy]
-  rw [replyCopy_decoded g l m _ hd]; rfl
-
-/-- **gateway ready (≥ 2.0)**: the callback fires and a broadcast discover request goes out -/
-theorem gateway_ready_reply (g : GW) (l : Str) (m : Msg) (sub : Int) (hd : decode l = some m)
-    (hv : validate g.const m = true) (ht : m.type = g.t.mtInternal)
-    (hh : lookup m.sub g.t.internalHandlers = some .handle_gateway_ready_20)
-    (hnt : ¬ (g.kind = .tcp ∧ some m.sub = g.t.iVersion)) (hs : g.t.iDiscover = some sub) :
-    logic g l = seq (alert g m) fun g1 => route g1 ⟨255, m.child, m.type, 0, sub, []⟩ := by
-  rw [logic_internal g l m _ hd hv ht hh hnt]
-  simp only [handleInternalBy]
-  have : ∀ g1 : GW, g1.t = g.t → withConst g1 g1.t.iDiscover (fun sub =>
-      replyCopy g1 m { node := some 255, ack := some 0, sub := some sub, payload := some [] }) =
-      route g1 ⟨255, m.child, m.type, 0, sub, []⟩ := by
-    intro g1 e
-    rw [e, withConst_eq _ _ _ sub hs, replyCopy_decoded g1 l m _ hd]; rfl
-  exact seq_congr _ _ _ (this (alert g m).1 rfl)
-
-/-- **gateway ready (< 2.0)**, **log message**, and every internal sub-type without handler: silence -/
-theorem internal_without_handler_silent (g : GW) (l : Str) (m : Msg) (hd : decode l = some m)
-    (hv : validate g.const m = true) (ht : m.type = g.t.mtInternal)
-    (hh : lookup m.sub g.t.internalHandlers = none) : logic g l = ret g := by
-  rw [logic_accepted g l m hd hv]
-  have := type_dispatch g.const
-  simp only [typeDispatchOk, Bool.and_eq_true, beq_iff_eq] at this
-  unfold dispatch
-  rw [ht]
-  have h' : lookup g.t.mtInternal g.t.typeHandlers = some .handle_internal := this.1.2
-  simp only [h', dispatchBy, handleInternal, hh]
-  split <;> rfl
-
-/-- **a reported value from a node that is not asked to reboot**: silence (state + callback only) -/
-theorem set_without_reboot_silent (g : GW) (l : Str) (m : Msg) (n : Node) (hd : decode l = some m)
-    (hv : validate g.const m = true) (ht : m.type = g.t.mtSet)
-    (hk : isKnown g m.node (some m.child) = true) (hn : aget m.node g.sensors = some n)
-    (hr : n.reboot = false) : (logic g l).2.sent = [] := by
-  rw [logic_set g l m hd hv ht]
-  unfold handleSet ifKnown
-  simp only [hk, ↓reduceIte]
-  rw [withNode_eq g m.node _ n hn]
-  unfold seq rebootReply
-  simp [alert, hr, ret, Out.append]
-  rfl
-
-/-! id request: `C06.alloc_reply` (an id response carrying the allocated id) and
-    `C06.no_alloc_no_node` (nothing when no id is free). -/
-
-/-! ### validity of the prescribed replies -/
-
-theorem headerOk_ack (t : VTables) (m : Msg) (p : Str) (a : Int) (ha : a = 0 ∨ a = 1) (h : headerOk t m = true) :
-    headerOk t { m with ack := a, payload := p } = true := by
-  simp only [headerOk, childOk, typeOk, Bool.and_eq_true, decide_eq_true_eq] at h ⊢
-  obtain ⟨⟨⟨⟨h1, h2⟩, h3⟩, _⟩, h5⟩ := h
-  exact ⟨⟨⟨⟨h1, h2⟩, h3⟩, ha⟩, h5⟩
-
-def configRuleOk (t : VTables) : Bool :=
-  t.internalHandlers.all fun p =>
-    !(p.2 = .handle_config) ||
-      (evalV (payloadRule t t.mtInternal p.1) ['M'] && evalV (payloadRule t t.mtInternal p.1) ['I'])
-
-theorem config_rule (c : ConstId) : configRuleOk (Tables.tables c) = true := by cases c <;> decide
-
-/-- the config reply is valid for the configured version -/
-theorem config_reply_valid (g : GW) (m : Msg) (hv : validate g.const m = true) (ht : m.type = g.t.mtInternal)
-    (hh : lookup m.sub g.t.internalHandlers = some .handle_config) :
-    validate g.const ⟨m.node, m.child, m.type, 0, m.sub, if g.metric then ['M'] else ['I']⟩ = true := by
-  have hc := config_rule g.const
-  simp only [configRuleOk, List.all_eq_true] at hc
-  have := hc (m.sub, .handle_config) (lookup_mem _ _ _ hh)
-  simp only [Bool.or_eq_true, Bool.not_eq_true', decide_eq_false_iff_not, not_true_eq_false, false_or,
-    Bool.and_eq_true] at this
-  simp only [validate, Bool.and_eq_true] at hv ⊢
-  refine ⟨headerOk_ack _ m _ 0 (Or.inl rfl) hv.1, ?_⟩
-  show evalV (payloadRule (Tables.tables g.const) m.type m.sub) _ = true
-  rw [ht]
-  split
-  · exact this.1
-  · exact this.2
-
-def timeRuleOk (t : VTables) : Bool :=
-  t.internalHandlers.all fun p =>
-    !(p.2 = .handle_time) ||
-      (payloadRule t t.mtInternal p.1 == [[.lit []], [.coerceInt, .coerceStr]])
-
-theorem time_rule (c : ConstId) : timeRuleOk (Tables.tables c) = true := by cases c <;> decide
-
-/-- the time reply is valid whenever the clock can be rendered (CPython's digit limit) -/
-theorem time_reply_valid (g : GW) (m : Msg) (hv : validate g.const m = true) (ht : m.type = g.t.mtInternal)
-    (hh : lookup m.sub g.t.internalHandlers = some .handle_time)
-    (hclock : numDigits g.clock ≤ PyTables.intMaxDigits) :
-    validate g.const ⟨m.node, m.child, m.type, 0, m.sub, renderInt g.clock⟩ = true := by
-  have hc := time_rule g.const
-  simp only [timeRuleOk, List.all_eq_true] at hc
-  have := hc (m.sub, .handle_time) (lookup_mem _ _ _ hh)
-  simp only [Bool.or_eq_true, Bool.not_eq_true', decide_eq_false_iff_not, not_true_eq_false, false_or,
-    beq_iff_eq] at this
-  simp only [validate, Bool.and_eq_true] at hv ⊢
-  refine ⟨headerOk_ack _ m _ 0 (Or.inl rfl) hv.1, ?_⟩
-  show evalV (payloadRule (Tables.tables g.const) m.type m.sub) _ = true
-  have e : g.t = Tables.tables g.const := rfl
-  rw [ht, e, this]
-  simp [evalV, evalAll, evalAtom, pyInt_renderInt g.clock hclock]
-
-def reqSetFacts (t : VTables) : Bool :=
-  t.mtReq != t.mtInternal && t.mtReq != t.mtStream && t.mtReq != t.mtPresentation &&
-  t.mtSet != t.mtInternal && t.mtSet != t.mtStream && t.messageTypes.contains t.mtSet &&
-  (subTypesOf t t.mtSet == subTypesOf t t.mtReq)
-
-theorem req_set_facts (c : ConstId) : reqSetFacts (Tables.tables c) = true := by cases c <;> decide
-
-/-- the value-request reply is valid when the stored / desired value satisfies the rule of that
-    value type (stored values were validated on arrival under the same rule, desired values at
-    call time: `C08.accepted_value_is_sendable`) -/
-theorem value_reply_valid (g : GW) (m : Msg) (v : Str) (hv : validate g.const m = true) (ht : m.type = g.t.mtReq)
-    (hrule : evalV (payloadRule g.t g.t.mtSet m.sub) v = true) :
-    validate g.const ⟨m.node, m.child, g.t.mtSet, m.ack, m.sub, v⟩ = true := by
-  have hf := req_set_facts g.const
-  have e : g.t = Tables.tables g.const := rfl
-  rw [e] at ht hrule
-  rw [e]
-  simp only [validate] at hv ⊢
-  generalize Tables.tables g.const = t at hf ht hrule hv ⊢
-  simp only [reqSetFacts, Bool.and_eq_true, bne_iff_ne, ne_eq, beq_iff_eq] at hf
-  obtain ⟨⟨⟨⟨⟨⟨f1, f2⟩, f3⟩, f4⟩, f5⟩, f6⟩, f7⟩ := hf
-  simp only [headerOk, childOk, typeOk, Bool.and_eq_true, decide_eq_true_eq] at hv ⊢
-  obtain ⟨⟨⟨⟨⟨hnode, hchild⟩, htype⟩, hack⟩, hsub⟩, _⟩ := hv
-  rw [ht] at hchild htype hsub
-  have n1 : ¬ (t.mtReq = t.mtInternal ∧ (some m.sub = t.iIdRequest ∨ some m.sub = t.iIdResponse)) := fun h => f1 h.1
-  have n2 : ¬ (t.mtReq = t.mtInternal ∨ t.mtReq = t.mtStream) := fun h => h.elim f1 f2
-  simp only [n1, n2, ↓reduceIte, decide_eq_true_eq] at hchild
-  have hne255 : ¬ m.child = Tables.systemChildId := by
-    intro h
-    simp only [h, ↓reduceIte, decide_eq_true_eq] at htype
-    rcases htype with h' | h' | h'
-    · exact f3 h'
-    · exact f1 h'
-    · exact f2 h'
-  have n3 : ¬ (t.mtSet = t.mtInternal ∧ (some m.sub = t.iIdRequest ∨ some m.sub = t.iIdResponse)) := fun h => f4 h.1
-  have n4 : ¬ (t.mtSet = t.mtInternal ∨ t.mtSet = t.mtStream) := fun h => h.elim f4 f5
-  refine ⟨⟨⟨⟨⟨hnode, ?_⟩, ?_⟩, hack⟩, ?_⟩, hrule⟩
-  · simp only [n3, n4, ↓reduceIte, decide_eq_true_eq]; exact hchild
-  · simp only [hne255, ↓reduceIte]; exact f6
-  · rw [f7]; exact hsub
-
-/-- every line handed to the transport for a valid message with a carryable payload is the
-    canonical line and decodes to that message again -/
-theorem emitted_line_canonical (r : Msg) (hp : carryable r.payload) (hl : intsWithinLimit r) :
-    encLine r = canon r ∧ decode (encLine r) = some r := by
-  unfold encLine
-  rw [encode_eq_canon r hl]
-  exact ⟨rfl, decode_canon r hp hl⟩
-
-/-! Non-vacuity -/
-
-example : (logic { const := .v20 } "3;255;3;0;6;0\n".toList).2.sent = ["3;255;3;0;6;M\n".toList] := by
-  decide +kernel
-example : (logic { const := .v20 } "3;1;2;0;0;\n".toList).2.sent = ["3;255;3;0;19;\n".toList] := by decide +kernel
-example : (logic { const := .v15 } "3;1;2;0;0;\n".toList).2.sent = [] := by decide +kernel
-example : (logic { const := .v22, clock := 1700000000 } "3;255;3;0;1;\n".toList).2.sent =
-    ["3;255;3;0;1;1700000000\n".toList] := by decide +kernel
+example : (step (run { const := .v20 } demo) (.line "1;255;3;0;22;8\n".toList)).2.sent =
+    ["1;1;1;0;0;25\n".toList, "1;1;1;0;0;25\n".toList] := by decide +kernel
 
 end MySensors.C05
